@@ -952,3 +952,192 @@ Proof.
           (0, SEnd 0); (0, FwRecv 0)].
   eexists. eexists. eexists. vm_compute. repeat split.
 Qed.
+
+(* ================================================================ 5. the trace validator *)
+
+(* every model state the validator ever holds is a state of the transition system
+   reachable from the initial state of the session: what it accepts, some run of
+   the model does *)
+Definition reach (fx : fixes) (s0 s : st) : Prop := exists acts, run fx s0 acts = Some s.
+
+Lemma reach_refl fx s : reach fx s s.
+Proof. exists []. reflexivity. Qed.
+
+Lemma reach_step fx s0 s a s' : reach fx s0 s -> step fx s a = Some s' -> reach fx s0 s'.
+Proof.
+  intros [acts H] Hs. exists (acts ++ [a]). rewrite (run_app fx acts s0 [a] s H). cbn. now rewrite Hs.
+Qed.
+
+Lemma steps_reach fx s0 s l : reach fx s0 s -> forall x, In x (steps fx s l) -> reach fx s0 x.
+Proof.
+  intros Hr. induction l as [|a r IH]; intros x Hx; cbn in Hx; [contradiction|].
+  destruct (step fx s a) as [s'|] eqn:E; auto. destruct Hx as [<-|Hx]; auto. eapply reach_step; eauto.
+Qed.
+
+Lemma closure_unfold fx f s r seen :
+  closure fx (S f) (s :: r) seen =
+  match (match eager_action fx s with Some a => step fx s a | None => None end) with
+  | Some s' => closure fx f (s' :: r) seen
+  | None => if existsb (st_eqb s) seen then closure fx f r seen
+            else closure fx f (succs fx s ++ r) (s :: seen)
+  end.
+Proof. reflexivity. Qed.
+
+Lemma closure_nil fx fuel seen : closure fx fuel [] seen = Some seen.
+Proof. destruct fuel; reflexivity. Qed.
+
+Lemma closure_reach fx s0 fuel : forall todo seen res,
+  (forall x, In x todo -> reach fx s0 x) -> (forall x, In x seen -> reach fx s0 x) ->
+  closure fx fuel todo seen = Some res -> forall x, In x res -> reach fx s0 x.
+Proof.
+  induction fuel as [|f IH]; intros todo seen res Ht Hs H; destruct todo as [|s r].
+  - rewrite closure_nil in H. inv H. auto.
+  - discriminate H.
+  - rewrite closure_nil in H. inv H. auto.
+  - rewrite closure_unfold in H.
+    assert (Hrs : reach fx s0 s) by (apply Ht; now left).
+    assert (Hr : forall x, In x r -> reach fx s0 x) by (intros x Hx; apply Ht; now right).
+    remember (match eager_action fx s with Some a => step fx s a | None => None end) as eg eqn:Ee.
+    destruct eg as [s'|].
+    + apply (IH (s' :: r) seen res); auto. intros x [<-|Hx]; auto.
+      destruct (eager_action fx s) as [a|]; [|discriminate]. eapply reach_step; eauto.
+    + remember (existsb (st_eqb s) seen) as ex eqn:Ex. destruct ex.
+      * apply (IH r seen res); auto.
+      * apply (IH (succs fx s ++ r) (s :: seen) res); auto.
+        -- intros x Hx. apply in_app_or in Hx as [Hx|Hx]; auto. unfold succs in Hx. eapply steps_reach; eauto.
+        -- intros x [<-|Hx]; auto.
+Qed.
+
+Lemma event_steps_reach fx s0 s e : reach fx s0 s -> forall x, In x (event_steps fx s e) -> reach fx s0 x.
+Proof.
+  intros Hr x Hx. destruct e as [m1| |c1 v1|cc1|c1 v1|c1|c1|k1]; cbn [event_steps] in Hx.
+  1-2, 5-6: eapply steps_reach; eauto.
+  - destruct (nth_error (wsout (nt s)) (crecv (nt s))) as [[m2|c2]|]; try contradiction.
+    destruct (omsg_eqb m2 (c1, v1)); [|contradiction]. eapply steps_reach; eauto.
+  - destruct (nth_error (wsout (nt s)) (crecv (nt s))) as [[m2|c2]|]; try contradiction.
+    destruct (ccode_eqb c2 cc1); [|contradiction]. eapply steps_reach; eauto.
+  - destruct (ad (pc s)) as [|[c2|]|]; try contradiction.
+    destruct (c2 =? c1); [|contradiction]. eapply steps_reach; eauto.
+  - destruct (nth_error (reqs (pc s)) k1) as [r|]; [|contradiction].
+    destruct (stp r); [|contradiction]. destruct (crashed s); [contradiction|].
+    destruct Hx as [<-|[]]. exact Hr.
+Qed.
+
+Lemma explain_from_reach fx s0 fuel evs : forall cur res,
+  (forall x, In x cur -> reach fx s0 x) ->
+  explain_from fx fuel cur evs = Some res -> forall x, In x res -> reach fx s0 x.
+Proof.
+  induction evs as [|e r IH]; intros cur res Hc H; cbn in H.
+  - inv H. auto.
+  - destruct (closure fx fuel (flat_map (fun s => event_steps fx s e) cur) []) as [nxt|] eqn:Ec; [|discriminate].
+    apply (IH nxt res); auto.
+    eapply closure_reach; [| |exact Ec].
+    + intros x Hx. apply in_flat_map in Hx as (s & Hs & Hx). eapply event_steps_reach; eauto.
+    + intros x [].
+Qed.
+
+Theorem explain_reachable fx m0 n evs res :
+  explain fx m0 n evs = Some res -> forall s, In s res -> exists acts, run fx (init m0 n) acts = Some s.
+Proof.
+  unfold explain. intros H.
+  destruct (closure fx (fuel_of (length evs)) [init m0 n] []) as [c0|] eqn:Ec; [|discriminate].
+  eapply explain_from_reach; [|exact H].
+  eapply closure_reach; [| |exact Ec].
+  - intros x [<-|[]]. apply reach_refl.
+  - intros x [].
+Qed.
+
+(* hence: when the (fixed-variant) validator is asked whether a crash is possible, it says no *)
+Corollary explain_fixed_never_crashed m0 n evs res :
+  explain fixed m0 n evs = Some res -> forall s, In s res -> crashed s = false.
+Proof.
+  intros H s Hs. destruct (explain_reachable fixed m0 n evs res H s Hs) as [acts Hr].
+  eapply no_crash; eauto.
+Qed.
+
+(* ================================================================ 6. the pinned code away from the defects *)
+
+(* A stream on which the client never sends a further message (it only reads,
+   closes or drops) never crashes the pinned server: F18, F19 and C15-N1 all need
+   a follow-up message. *)
+Definition no_send (a : action) : Prop := match a with CSend _ => False | _ => True end.
+
+Definition phase (s : st) : Prop :=
+  (ad (pc s) = ALoop /\ (exists m, cin (wk s) = [m]) /\ reqs (pc s) = [] /\
+   out_closed (pc s) = false /\ once (pc s) = false) \/
+  ((exists m, ad (pc s) = ABusy m) /\ cin (wk s) = [] /\ reqs (pc s) = [] /\
+   out_closed (pc s) = false /\ once (pc s) = false) \/
+  (cin (wk s) = [] /\ (ad (pc s) = ALoop \/ ad (pc s) = AExit) /\
+   ((reqs (pc s) = [] /\ once (pc s) = false) \/
+    (exists r, reqs (pc s) = [r] /\
+       ((fw r <> FExit /\ once (pc s) = false /\ out_closed (pc s) = false) \/
+        (fw r = FExit /\ once (pc s) = true /\ out_closed (pc s) = true))))).
+
+Record InvQ (s : st) : Prop := {
+  q_wsin : wsin (nt s) = [];
+  q_rd : rd (wk s) = RRead \/ rd (wk s) = RExit;
+  q_wr : wr (wk s) = WLoop -> cin_closed (wk s) = false;
+  q_stop : stopall (pc s) = true -> ad (pc s) = AExit;
+  q_phase : phase s;
+  q_ok : crashed s = false }.
+
+Lemma InvQ_init m0 n : InvQ (init m0 n).
+Proof.
+  constructor; cbn; auto; try discriminate. left. cbn. repeat split; eauto.
+Qed.
+
+Lemma step_InvQ s a s' : no_send a -> InvQ s -> step pinned s a = Some s' -> InvQ s'.
+Proof.
+  intros Hns [Q1 Q2 Q3 Q4 Q5 Q6] H. unfold step in H. rewrite Q6 in H.
+  destruct a; try contradiction; cbn in H; unfold wr_release, handler_ok in H; cbn -[Nat.ltb] in H; dmatch H; inv H.
+  all: try (constructor; proj; auto; fail).
+  all: try (destruct Q2; congruence).
+  all: unfold phase in Q5;
+       destruct Q5 as [(Ha & (m0' & Hc) & Hr & Ho & Hn) | [((m0' & Ha) & Hc & Hr & Ho & Hn) | (Hc & Ha & Hrq)]];
+       try congruence.
+  all: try (destruct Ha; congruence).
+  all: try (destruct Hrq as [(Hr & Hn)|(r0 & Hr & [(Hf & Hn & Ho)|(Hf & Hn & Ho)])]); try congruence.
+  all: try match goal with
+       | Hr : reqs (pc ?s0) = [], Hk : nth_error (reqs (pc ?s0)) ?k = Some _ |- _ =>
+           rewrite Hr in Hk; destruct k; discriminate
+       | Hr : reqs (pc ?s0) = [?r0], Hk : nth_error (reqs (pc ?s0)) ?k = Some _ |- _ =>
+           rewrite Hr in Hk; destruct k as [|[|?]]; try discriminate; inv Hk
+       end; try congruence.
+  all: try (specialize (Q3 eq_refl); discriminate).
+  all: try (specialize (Q4 eq_refl); congruence).
+  all: constructor; proj; auto; try discriminate; try congruence.
+  all: try (intros; congruence).
+  all: unfold phase; proj; rewrite ?Hr; cbn [upd app].
+  all: first
+       [ left; solve [repeat split; eauto; congruence]
+       | right; left; solve [repeat split; eauto; congruence]
+       | right; right; split; [solve [auto; congruence]|split; [solve [auto; tauto]|]];
+         first [ left; solve [split; auto; congruence]
+               | right; eexists; split; [reflexivity|]; proj;
+                 first [ left; solve [repeat split; auto; congruence]
+                       | right; solve [repeat split; auto; congruence] ] ]
+       | idtac ].
+  all: try (intros Hx; specialize (Q4 Hx); discriminate).
+  all: intros Hx; specialize (Q3 Hx); discriminate.
+Qed.
+
+Lemma run_no_send acts : forall s s',
+  Forall no_send acts -> InvQ s -> run pinned s acts = Some s' -> InvQ s'.
+Proof.
+  induction acts as [|a r IH]; intros s s' Hf Hs H; cbn in H.
+  - now inv H.
+  - inv Hf. destruct (step pinned s a) as [s1|] eqn:E; [|discriminate].
+    apply (IH s1 s' H3); [|exact H]. eapply step_InvQ; eauto.
+Qed.
+
+Theorem pinned_no_crash_without_followups m0 n acts s :
+  Forall no_send acts -> run pinned (init m0 n) acts = Some s -> crashed s = false.
+Proof. intros Hf H. apply (q_ok s (run_no_send acts _ _ Hf (InvQ_init m0 n) H)). Qed.
+
+Example pinned_no_followups_example :
+  exists acts s, Forall no_send acts /\ run pinned (init (MReq 0) 1) acts = Some s /\ census s = 0.
+Proof.
+  exists [AdTake; AdHandle; SEmit 0 1; FwRecv 0; FwSend 0; WrFwd; CLeave; RdErr; WrClosing; WrFinish;
+          AdEnd; StStop 0; SEnd 0; FwRecv 0].
+  eexists. split; [repeat constructor|]. vm_compute. auto.
+Qed.
